@@ -442,7 +442,8 @@ impl World {
                 if !s.queue.is_empty() {
                     let t = if s.queue.iter().any(|p| !p.direct) { ",C07" } else { "" };
                     sink.oracle_fail(&format!("C05{t}{ptag}"), &format!("subscriber {i} reports Pending with {} published update(s) not delivered", s.queue.len()));
-                } else if s.replica != current {
+                }
+                if s.replica != current {
                     sink.oracle_fail(&format!("C06,C05{ptag}"), &format!("subscriber {i} reports Pending but its replica {:?} differs from the contents {current:?}", s.replica));
                 }
                 if !alive { sink.oracle_fail("C08", &format!("subscriber {i} reports Pending after the vector was dropped")); }
@@ -981,6 +982,35 @@ pub fn run(args: &Args, sink: &mut Sink) {
         }
     }
     sink.stat_n("exhaustive.D", nd);
+    // LP. large capacity, a transaction's diffs only partly taken by the plain stream, then a burst of further updates
+    // that stays within / reaches / exceeds the capacity before the next poll
+    let mut nlp = 0u64;
+    for cap in [17usize, 20, 32, 64] {
+        for n_after in [10usize, 16, 17, 19, cap - 1, cap, cap + 1] {
+            for taken in [1usize, 2] {
+                nlp += 1;
+                sink.case(&format!("LP{nlp}"));
+                let mut w = World::new(sink, cap);
+                w.direct(sink, &Op::Append(vec![1, 2, 3, 4]));
+                let p = w.subscribe(sink, false);
+                let b = w.subscribe(sink, true);
+                w.txn_begin(sink);
+                w.txn_op(sink, &Op::Set(0, 9));
+                w.txn_op(sink, &Op::Set(1, 10));
+                w.txn_op(sink, &Op::PushB(5));
+                w.txn_commit(sink);
+                for _ in 0..taken { w.poll(sink, p); }
+                for j in 0..n_after { w.direct(sink, &Op::Set(j % 4, 100 + j as V)); }
+                w.drain(sink, p);
+                w.drain(sink, b);
+                w.drop_vec(sink);
+                w.drain(sink, p);
+                w.drain(sink, b);
+                sink.nontrivial();
+            }
+        }
+    }
+    sink.stat_n("exhaustive.LP", nlp);
     // E. random histories
     let mut rng = Rng(args.seed ^ 0x5EC);
     let rounds = if thorough { 150000 } else { 2500 };
